@@ -231,6 +231,36 @@ def coversTag (cls : Classes) (text : Bytes) (t : Token) (a : AbsTok) : Bool :=
 def coversOk (cls : Classes) (text : Bytes) (toks : List Token) (a : AbsTok) : Bool :=
   toks.any fun t => t.ty != .eof && (coversTok text t a || coversTag cls text t a)
 
+/-! ### Guards of the known deviations (see known_findings.json, property C17)
+
+  Each is a decidable predicate on the text and ONE lexer token (the token a semantic token was
+  made from); the `_partial` theorems assume their negations. -/
+
+/-- `|` is reported at the position AFTER the character. -/
+def devPipe (t : Token) : Bool := t.ty == .pipe
+
+/-- A code's value has no parentheses, its length is computed from the value. -/
+def devCode (t : Token) : Bool := t.ty == .code
+
+/-- A quoted commodity's value has no quotes, its length is computed from the value. -/
+def devQuoted (t : Token) : Bool := t.ty == .commodity && t.stop.off - t.pos.off != t.val.length
+
+/-- A text token's value is trimmed but its position is where scanning started; an empty
+    value gives a zero-length token. -/
+def devTextTrim (text : Bytes) (t : Token) : Bool :=
+  t.ty == .text && (t.val.isEmpty || leadWs (sliceB text t.pos.off t.stop.off) > 0)
+
+/-- A comment on a CRLF line: the value (and so the length) includes the CR. -/
+def devCrComment (t : Token) : Bool := t.ty == .comment && t.val.getLast? == some cr
+
+/-- A character outside the BMP earlier on the line: the lexer's column counts it once, LSP
+    counts two UTF-16 units. -/
+def devNonBmpBefore (text : Bytes) (off : Nat) : Bool :=
+  ((runes ((splitOn lf (text.take off)).getLast?.getD [])).any (· ≥ 0x10000))
+
+/-- Tag tokens are placed by BYTE offsets inside the comment: wrong after a non-ASCII byte. -/
+def devTagBytes (t : Token) (endByte : Nat) : Bool := (t.val.take endByte).any (· ≥ 0x80)
+
 /-- The property's domain: valid UTF-8 (no U+FFFD produced by decoding unless present), and CR
     only as part of CRLF. -/
 def crOnlyBeforeLf : Bytes → Bool
